@@ -153,7 +153,7 @@ def gen_run(rng, stop=None, **over):
              'gnint': str(rng.choice([0, 1, 3, 2])), 'gnsticky': str(rng.randint(0, 1)),
              'resetgn': str(rng.randint(0, 1)), 'chol': str(rng.randint(0, 1)),
              'noaccel': str(rng.choice([0, 0, 0, 0, 1])), 'mem': str(rng.choice([1, 2, 5])),
-             'L0': f2h(rng.choice([0.0, 0.0, 1.0, 64.0])),
+             'L0': f2h(rng.choice([0.0, 0.0, 1.0, 64.0, 2.0 ** -8])),
              'Lmax': f2h(rng.choice([1e20] * 5 + [8.0, 64.0])),
              'minls': f2h(rng.choice([1. / 256, 1. / 256, 0.25])),
              'stopat': '0', 'stopcb': '0', 'oot': str(rng.choice([0] * 24 + [1]))})
@@ -189,9 +189,12 @@ def gen_run(rng, stop=None, **over):
 def sweep_ops(rng, exe, n_problems, **over):
     """Exhaustive stop injection: for fixed runs, `stop()` during every event index."""
     ops = []
-    for _ in range(n_problems):
+    for i in range(n_problems):
         kw = dict(stop=False, maxiter=rng.choice([2, 3, 4]), oot=0, trace=0,
                   N=rng.choice([1, 2, 3]), crit=rng.choice([2, 3, 4, 5, 6, 7]))
+        if i == 0:      # many initial step-size backtracks: stop() lands inside that loop
+            kw.update({k: v for k, v in S.init_sweep_overrides(rng).items() if k != 'Lmin'})
+            kw['scenario'] = 'plain'
         kw.update(over)
         base = gen_run(rng, **kw)
         out, rc, err = C.run_lines(exe, [base.line()])
